@@ -1,6 +1,593 @@
-//! `vh featvars`: see /verif/docs/MODULE_CONTRACT.md
+//! `vh featvars`: binding of spec/FeatVars.tla (property C16) to the real code.
+//!
+//! Reads one JSON request per stdin line (or from the file given as first argument) and writes one
+//! JSON result line per request. All coordinates are integers in F2Dot14 units (16384 = 1.0) so that
+//! nothing here needs floating point comparisons.
+//!
+//! request:
+//!   { "id": "...", "nax": 1|2,
+//!     "rules": [ { "conds": [ [ {"ax":1,"lo":-8192,"hi":16384,"hasLo":true,"hasHi":false}, ..], ..],
+//!                  "subs": {"a":"a1", ..} }, .. ],
+//!     "pts": [ [x1(,x2)], .. ],            sample points (normalized, F2Dot14 units)
+//!     "api": true|false,                   call fontir::feature_variations::overlay_feature_variations
+//!     "compile": true|false, "dir": "..."  full compile from a generated designspace in `dir` }
+//!
+//! result:
+//!   { "id", "api": {"outcome":"ok|panic", "boxes":[{"box":[[ax,lo,hi],..],"subs":[{..},..]},..]},
+//!     "font": {"outcome":"ok|error|panic|unsupported", "message", "records":[..], "lookups":{..},
+//!              "features":[..], "obs":[{"a":"a1"},..] (one per point, same order) } }
+//!
+//! The only interpretation done here is the OpenType one for the *font*: first matching
+//! FeatureVariationRecord -> FeatureTableSubstitution -> lookups of the active features applied in
+//! lookup-list order to a single glyph. Everything about the API result is interpreted by the spec.
 
-pub fn run(_args: &[String]) -> i32 {
-    eprintln!("vh featvars: not implemented yet");
-    2
+use std::{
+    collections::{BTreeMap, BTreeSet},
+    io::{BufRead, Write},
+    path::{Path, PathBuf},
+};
+
+use fontdrasil::{coords::NormalizedCoord, types::GlyphName};
+use fontir::feature_variations::{NBox, Region, overlay_feature_variations};
+use serde::Deserialize;
+use serde_json::{Value, json};
+use write_fonts::{
+    read::{
+        FontRef, TableProvider,
+        tables::{
+            gsub::{SingleSubst, SubstitutionSubtables},
+            layout::Condition,
+        },
+    },
+    types::{GlyphId16, Tag},
+};
+
+use crate::compile::{CompileReq, compile, panic_message};
+
+const UNIT: f64 = 16384.0;
+/// axis index (1-based in requests) -> tag; tag order == index order, so BTreeMap<Tag,..> iteration
+/// order is the axis index order.
+const AXIS_TAGS: [&[u8; 4]; 2] = [b"wdth", b"wght"];
+const AXIS_NAMES: [&str; 2] = ["Width", "Weight"];
+
+#[derive(Debug, Clone, Deserialize)]
+struct CondJ {
+    ax: usize,
+    lo: i32,
+    hi: i32,
+    #[serde(rename = "hasLo")]
+    has_lo: bool,
+    #[serde(rename = "hasHi")]
+    has_hi: bool,
+}
+
+#[derive(Debug, Clone, Deserialize)]
+struct RuleJ {
+    conds: Vec<Vec<CondJ>>,
+    subs: BTreeMap<String, String>,
+}
+
+#[derive(Debug, Clone, Deserialize)]
+struct Req {
+    id: String,
+    nax: usize,
+    rules: Vec<RuleJ>,
+    #[serde(default)]
+    pts: Vec<Vec<i32>>,
+    #[serde(default)]
+    api: bool,
+    #[serde(default)]
+    compile: bool,
+    #[serde(default)]
+    dir: String,
+    /// keep the generated designspace + font (replays)
+    #[serde(default)]
+    keep: bool,
+}
+
+fn tag(ax: usize) -> Tag {
+    Tag::new(AXIS_TAGS[ax - 1])
+}
+
+fn units(c: NormalizedCoord) -> i64 {
+    (c.to_f64() * UNIT).round() as i64
+}
+
+// ---------------------------------------------------------------------------------------- API
+
+fn call_api(req: &Req) -> Value {
+    let rules = req.rules.clone();
+    let result = std::panic::catch_unwind(move || {
+        let mut input = Vec::new();
+        for rule in &rules {
+            let mut boxes = Vec::new();
+            for cs in &rule.conds {
+                let mut nbox = NBox::default();
+                for c in cs {
+                    let lo = c.has_lo.then(|| NormalizedCoord::new(c.lo as f64 / UNIT));
+                    let hi = c.has_hi.then(|| NormalizedCoord::new(c.hi as f64 / UNIT));
+                    nbox.insert(tag(c.ax), lo, hi);
+                }
+                boxes.push(nbox);
+            }
+            let subs: BTreeMap<GlyphName, GlyphName> = rule
+                .subs
+                .iter()
+                .map(|(k, v)| (GlyphName::new(k), GlyphName::new(v)))
+                .collect();
+            input.push((Region::from(boxes), subs));
+        }
+        overlay_feature_variations(input)
+    });
+    match result {
+        Ok(out) => {
+            let boxes: Vec<Value> = out
+                .iter()
+                .map(|(nbox, subs)| {
+                    let b: Vec<Value> = nbox
+                        .iter()
+                        .map(|(t, (lo, hi))| {
+                            let ax = AXIS_TAGS
+                                .iter()
+                                .position(|x| Tag::new(x) == t)
+                                .map(|i| i as i64 + 1)
+                                .unwrap_or(-1);
+                            json!([ax, units(lo), units(hi)])
+                        })
+                        .collect();
+                    let s: Vec<Value> = subs
+                        .iter()
+                        .map(|m| {
+                            Value::Object(
+                                m.iter()
+                                    .map(|(k, v)| (k.to_string(), Value::String(v.to_string())))
+                                    .collect(),
+                            )
+                        })
+                        .collect();
+                    json!({"box": b, "subs": s})
+                })
+                .collect();
+            json!({"outcome": "ok", "boxes": boxes})
+        }
+        Err(p) => json!({"outcome": "panic", "message": panic_message(p)}),
+    }
+}
+
+// ---------------------------------------------------------------------------------------- sources
+
+/// design coordinate of a normalized F2Dot14-unit value: axis min 0, default 16384, max 32768,
+/// user == design, so normalized = (design - 16384) / 16384 exactly.
+fn design(v: i32) -> i32 {
+    v + 16384
+}
+
+fn glyph_names(req: &Req) -> Vec<String> {
+    let mut names: Vec<String> = ["a", "a1", "a2", "b", "b1"].iter().map(|s| s.to_string()).collect();
+    let mut extra = BTreeSet::new();
+    for r in &req.rules {
+        for (k, v) in &r.subs {
+            extra.insert(k.clone());
+            extra.insert(v.clone());
+        }
+    }
+    for e in extra {
+        if !names.contains(&e) {
+            names.push(e);
+        }
+    }
+    names
+}
+
+fn write_if_changed(path: &Path, text: &str) -> std::io::Result<()> {
+    if let Ok(old) = std::fs::read_to_string(path)
+        && old == text
+    {
+        return Ok(());
+    }
+    if let Some(p) = path.parent() {
+        std::fs::create_dir_all(p)?;
+    }
+    std::fs::write(path, text)
+}
+
+const PLIST_HEAD: &str = "<?xml version='1.0' encoding='UTF-8'?>\n<!DOCTYPE plist PUBLIC \"-//Apple//DTD PLIST 1.0//EN\" \"http://www.apple.com/DTDs/PropertyList-1.0.dtd\">\n<plist version=\"1.0\">\n";
+
+fn glif_file_name(name: &str) -> String {
+    // all generated names are lower case ascii + digits
+    format!("{name}.glif")
+}
+
+fn write_ufo(dir: &Path, names: &[String]) -> std::io::Result<()> {
+    write_if_changed(
+        &dir.join("metainfo.plist"),
+        &format!(
+            "{PLIST_HEAD}<dict><key>creator</key><string>vh.featvars</string><key>formatVersion</key><integer>3</integer></dict></plist>\n"
+        ),
+    )?;
+    write_if_changed(
+        &dir.join("fontinfo.plist"),
+        &format!(
+            "{PLIST_HEAD}<dict><key>unitsPerEm</key><integer>1000</integer><key>ascender</key><integer>800</integer><key>descender</key><integer>-200</integer><key>xHeight</key><integer>500</integer><key>capHeight</key><integer>700</integer><key>familyName</key><string>FeatVars</string><key>styleName</key><string>Regular</string></dict></plist>\n"
+        ),
+    )?;
+    write_if_changed(
+        &dir.join("layercontents.plist"),
+        &format!(
+            "{PLIST_HEAD}<array><array><string>public.default</string><string>glyphs</string></array></array></plist>\n"
+        ),
+    )?;
+    let mut order = String::new();
+    let mut contents = String::new();
+    for (i, n) in names.iter().enumerate() {
+        order.push_str(&format!("<string>{n}</string>"));
+        contents.push_str(&format!("<key>{n}</key><string>{}</string>", glif_file_name(n)));
+        let uni = match n.as_str() {
+            "a" => "<unicode hex=\"0061\"/>",
+            "b" => "<unicode hex=\"0062\"/>",
+            _ => "",
+        };
+        let w = 300 + 10 * i;
+        write_if_changed(
+            &dir.join("glyphs").join(glif_file_name(n)),
+            &format!(
+                "<?xml version='1.0' encoding='UTF-8'?>\n<glyph name=\"{n}\" format=\"2\">\n<advance width=\"{w}\"/>{uni}\n<outline><contour><point x=\"50\" y=\"0\" type=\"line\"/><point x=\"{x}\" y=\"0\" type=\"line\"/><point x=\"{x}\" y=\"{y}\" type=\"line\"/><point x=\"50\" y=\"{y}\" type=\"line\"/></contour></outline>\n</glyph>\n",
+                x = w - 50,
+                y = 100 + 20 * i
+            ),
+        )?;
+    }
+    write_if_changed(
+        &dir.join("lib.plist"),
+        &format!("{PLIST_HEAD}<dict><key>public.glyphOrder</key><array>{order}</array></dict></plist>\n"),
+    )?;
+    write_if_changed(
+        &dir.join("glyphs").join("contents.plist"),
+        &format!("{PLIST_HEAD}<dict>{contents}</dict></plist>\n"),
+    )?;
+    Ok(())
+}
+
+fn designspace_text(req: &Req, ufo_names: &[String]) -> String {
+    let mut s = String::from("<?xml version='1.0' encoding='UTF-8'?>\n<designspace format=\"5.0\">\n  <axes>\n");
+    for ax in 0..req.nax {
+        s.push_str(&format!(
+            "    <axis tag=\"{}\" name=\"{}\" minimum=\"0\" maximum=\"32768\" default=\"16384\"/>\n",
+            std::str::from_utf8(AXIS_TAGS[ax]).unwrap(),
+            AXIS_NAMES[ax]
+        ));
+    }
+    s.push_str("  </axes>\n  <rules>\n");
+    for (i, r) in req.rules.iter().enumerate() {
+        s.push_str(&format!("    <rule name=\"r{}\">\n", i + 1));
+        for cs in &r.conds {
+            s.push_str("      <conditionset>\n");
+            for c in cs {
+                s.push_str(&format!("        <condition name=\"{}\"", AXIS_NAMES[c.ax - 1]));
+                if c.has_lo {
+                    s.push_str(&format!(" minimum=\"{}\"", design(c.lo)));
+                }
+                if c.has_hi {
+                    s.push_str(&format!(" maximum=\"{}\"", design(c.hi)));
+                }
+                s.push_str("/>\n");
+            }
+            s.push_str("      </conditionset>\n");
+        }
+        for (k, v) in &r.subs {
+            s.push_str(&format!("      <sub name=\"{k}\" with=\"{v}\"/>\n"));
+        }
+        s.push_str("    </rule>\n");
+    }
+    s.push_str("  </rules>\n  <sources>\n");
+    // default master + both ends of every axis
+    let mut locs: Vec<Vec<i32>> = vec![vec![16384; req.nax]];
+    for ax in 0..req.nax {
+        for v in [0, 32768] {
+            let mut l = vec![16384; req.nax];
+            l[ax] = v;
+            locs.push(l);
+        }
+    }
+    for (i, l) in locs.iter().enumerate() {
+        s.push_str(&format!(
+            "    <source filename=\"{}\" name=\"m{i}\" familyname=\"FeatVars\" stylename=\"S{i}\">\n      <location>\n",
+            ufo_names[i]
+        ));
+        for ax in 0..req.nax {
+            s.push_str(&format!(
+                "        <dimension name=\"{}\" xvalue=\"{}\"/>\n",
+                AXIS_NAMES[ax], l[ax]
+            ));
+        }
+        s.push_str("      </location>\n    </source>\n");
+    }
+    s.push_str("  </sources>\n</designspace>\n");
+    s
+}
+
+// ---------------------------------------------------------------------------------------- font
+
+struct FontView {
+    /// per record: conditions (axis index 0-based, min, max in F2Dot14 units); substitutions
+    /// feature index -> lookup indices
+    records: Vec<(Vec<(u16, i32, i32)>, BTreeMap<u16, Vec<u16>>)>,
+    /// feature list: tag, lookup indices
+    features: Vec<(String, Vec<u16>)>,
+    /// lookup index -> single substitutions by glyph id
+    lookups: BTreeMap<u16, Vec<BTreeMap<u16, u16>>>,
+    names: Vec<String>,
+}
+
+fn read_font(bytes: &[u8]) -> Result<FontView, String> {
+    let font = FontRef::new(bytes).map_err(|e| format!("font: {e}"))?;
+    let nglyphs = font.maxp().map_err(|e| format!("maxp: {e}"))?.num_glyphs();
+    let post = font.post().map_err(|e| format!("post: {e}"))?;
+    let names: Vec<String> = (0..nglyphs)
+        .map(|g| {
+            post.glyph_name(GlyphId16::new(g))
+                .map(|s| s.to_string())
+                .unwrap_or_else(|| format!("gid{g}"))
+        })
+        .collect();
+    let mut view = FontView { records: vec![], features: vec![], lookups: BTreeMap::new(), names };
+    let Ok(gsub) = font.gsub() else {
+        // no GSUB at all: nothing is ever substituted
+        return Ok(view);
+    };
+    let flist = gsub.feature_list().map_err(|e| format!("feature list: {e}"))?;
+    for rec in flist.feature_records() {
+        let f = rec.feature(flist.offset_data()).map_err(|e| format!("feature: {e}"))?;
+        view.features.push((
+            rec.feature_tag().to_string(),
+            f.lookup_list_indices().iter().map(|x| x.get()).collect(),
+        ));
+    }
+    let llist = gsub.lookup_list().map_err(|e| format!("lookup list: {e}"))?;
+    for (i, lk) in llist.lookups().iter().enumerate() {
+        let lk = lk.map_err(|e| format!("lookup {i}: {e}"))?;
+        let subtables = lk.subtables().map_err(|e| format!("lookup {i}: {e}"))?;
+        let SubstitutionSubtables::Single(subs) = subtables else {
+            return Err(format!("UNSUPPORTED lookup {i} has type {}", lk.lookup_type()));
+        };
+        let mut tables = Vec::new();
+        for st in subs.iter() {
+            let st = st.map_err(|e| format!("lookup {i} subtable: {e}"))?;
+            let mut m = BTreeMap::new();
+            match st {
+                SingleSubst::Format1(t) => {
+                    let cov = t.coverage().map_err(|e| format!("coverage: {e}"))?;
+                    let d = t.delta_glyph_id();
+                    for g in cov.iter() {
+                        m.insert(g.to_u16(), (g.to_u16() as i32 + d as i32).rem_euclid(65536) as u16);
+                    }
+                }
+                SingleSubst::Format2(t) => {
+                    let cov = t.coverage().map_err(|e| format!("coverage: {e}"))?;
+                    for (g, s) in cov.iter().zip(t.substitute_glyph_ids()) {
+                        m.insert(g.to_u16(), s.get().to_u16());
+                    }
+                }
+            }
+            tables.push(m);
+        }
+        view.lookups.insert(i as u16, tables);
+    }
+    if let Some(fv) = gsub.feature_variations() {
+        let fv = fv.map_err(|e| format!("feature variations: {e}"))?;
+        let data = fv.offset_data();
+        for rec in fv.feature_variation_records() {
+            let mut conds = Vec::new();
+            if let Some(cs) = rec.condition_set(data) {
+                let cs = cs.map_err(|e| format!("condition set: {e}"))?;
+                for c in cs.conditions().iter() {
+                    match c.map_err(|e| format!("condition: {e}"))? {
+                        Condition::Format1AxisRange(c) => conds.push((
+                            c.axis_index(),
+                            c.filter_range_min_value().to_bits() as i32,
+                            c.filter_range_max_value().to_bits() as i32,
+                        )),
+                        _ => return Err("UNSUPPORTED condition format".into()),
+                    }
+                }
+            }
+            let mut subst = BTreeMap::new();
+            if let Some(fts) = rec.feature_table_substitution(data) {
+                let fts = fts.map_err(|e| format!("feature table substitution: {e}"))?;
+                for s in fts.substitutions() {
+                    let alt = s
+                        .alternate_feature(fts.offset_data())
+                        .map_err(|e| format!("alternate feature: {e}"))?;
+                    // first record for a feature index wins (OpenType: records sorted by index, unique)
+                    subst
+                        .entry(s.feature_index())
+                        .or_insert_with(|| alt.lookup_list_indices().iter().map(|x| x.get()).collect());
+                }
+            }
+            view.records.push((conds, subst));
+        }
+    }
+    Ok(view)
+}
+
+impl FontView {
+    /// OpenType semantics at a normalized location: the first record whose condition set matches
+    /// replaces the listed features; then all lookups referenced by any feature (every feature of the
+    /// font is considered active and all language systems alike: the generated fonts only have the
+    /// feature-variation feature) are applied in lookup-list order.
+    fn subs_at(&self, pt: &[i32], sources: &[String]) -> BTreeMap<String, String> {
+        let mut feats: Vec<Vec<u16>> = self.features.iter().map(|(_, l)| l.clone()).collect();
+        for (conds, subst) in &self.records {
+            let matches = conds.iter().all(|(ax, lo, hi)| {
+                // an axis the point does not have is at its default (0)
+                let v = pt.get(*ax as usize).copied().unwrap_or(0);
+                *lo <= v && v <= *hi
+            });
+            if matches {
+                for (fi, lookups) in subst {
+                    if let Some(f) = feats.get_mut(*fi as usize) {
+                        *f = lookups.clone();
+                    }
+                }
+                break;
+            }
+        }
+        let active: BTreeSet<u16> = feats.into_iter().flatten().collect();
+        let mut out = BTreeMap::new();
+        for src in sources {
+            let Some(gid) = self.names.iter().position(|n| n == src) else { continue };
+            let mut g = gid as u16;
+            for li in &active {
+                if let Some(tables) = self.lookups.get(li) {
+                    for t in tables {
+                        if let Some(s) = t.get(&g) {
+                            g = *s;
+                            break;
+                        }
+                    }
+                }
+            }
+            if g as usize != gid {
+                out.insert(
+                    src.clone(),
+                    self.names.get(g as usize).cloned().unwrap_or_else(|| format!("gid{g}")),
+                );
+            }
+        }
+        out
+    }
+
+    fn to_json(&self) -> (Value, Value, Value) {
+        let records: Vec<Value> = self
+            .records
+            .iter()
+            .map(|(c, s)| {
+                json!({"conds": c.iter().map(|(a, l, h)| json!([a, l, h])).collect::<Vec<_>>(),
+                       "subst": s.iter().map(|(f, l)| json!([f, l])).collect::<Vec<_>>()})
+            })
+            .collect();
+        let lookups: serde_json::Map<String, Value> = self
+            .lookups
+            .iter()
+            .map(|(i, tables)| {
+                let t: Vec<Value> = tables
+                    .iter()
+                    .map(|m| {
+                        Value::Object(
+                            m.iter()
+                                .map(|(g, s)| {
+                                    let n = |x: &u16| {
+                                        self.names.get(*x as usize).cloned().unwrap_or_else(|| format!("gid{x}"))
+                                    };
+                                    (n(g), Value::String(n(s)))
+                                })
+                                .collect(),
+                        )
+                    })
+                    .collect();
+                (i.to_string(), Value::Array(t))
+            })
+            .collect();
+        let features: Vec<Value> = self.features.iter().map(|(t, l)| json!([t, l])).collect();
+        (Value::Array(records), Value::Object(lookups), Value::Array(features))
+    }
+}
+
+fn full_compile(req: &Req, ufo_ready: &mut BTreeMap<PathBuf, Vec<String>>) -> Value {
+    let dir = PathBuf::from(if req.dir.is_empty() { "/verif/work/C16/fc/p0" } else { &req.dir });
+    let names = glyph_names(req);
+    // always 5 masters on disk (the 1-axis designspaces use the first three)
+    let ufo_names: Vec<String> = (0..5).map(|i| format!("m{i}.ufo")).collect();
+    if ufo_ready.get(&dir) != Some(&names) {
+        for u in &ufo_names {
+            if let Err(e) = write_ufo(&dir.join(u), &names) {
+                return json!({"outcome": "tool-error", "message": format!("cannot write ufo: {e}")});
+            }
+        }
+        // a glyph set change leaves stale glifs behind; they are not listed in contents.plist
+        ufo_ready.insert(dir.clone(), names.clone());
+    }
+    let safe_id: String = req.id.chars().map(|c| if c.is_ascii_alphanumeric() { c } else { '_' }).collect();
+    let ds = dir.join(if req.keep { format!("{safe_id}.designspace") } else { "case.designspace".to_string() });
+    if let Err(e) = std::fs::write(&ds, designspace_text(req, &ufo_names)) {
+        return json!({"outcome": "tool-error", "message": format!("cannot write designspace: {e}")});
+    }
+    let creq = CompileReq {
+        tag: req.id.clone(),
+        src: ds.to_string_lossy().to_string(),
+        out: if req.keep { dir.join(format!("{safe_id}.ttf")).to_string_lossy().to_string() } else { String::new() },
+        no_flags: vec!["production_names".into()],
+        threads: 2,
+        ..Default::default()
+    };
+    let (res, bytes) = compile(&creq);
+    let Some(bytes) = bytes else {
+        return json!({"outcome": res.outcome, "message": res.message});
+    };
+    match read_font(&bytes) {
+        Ok(view) => {
+            let sources: Vec<String> = names.clone();
+            let obs: Vec<Value> = req
+                .pts
+                .iter()
+                .map(|p| {
+                    Value::Object(
+                        view.subs_at(p, &sources).into_iter().map(|(k, v)| (k, Value::String(v))).collect(),
+                    )
+                })
+                .collect();
+            let (records, lookups, features) = view.to_json();
+            json!({"outcome": "ok", "records": records, "lookups": lookups, "features": features, "obs": obs,
+                   "src": creq.src})
+        }
+        Err(e) if e.starts_with("UNSUPPORTED") => json!({"outcome": "unsupported", "message": e}),
+        Err(e) => json!({"outcome": "unreadable", "message": e}),
+    }
+}
+
+pub fn run(args: &[String]) -> i32 {
+    if std::env::var("VH_PANIC_VERBOSE").is_err() {
+        std::panic::set_hook(Box::new(|_| {}));
+    }
+    let reader: Box<dyn BufRead> = match args.first() {
+        Some(path) => match std::fs::File::open(path) {
+            Ok(f) => Box::new(std::io::BufReader::new(f)),
+            Err(e) => {
+                eprintln!("cannot open {path}: {e}");
+                return 2;
+            }
+        },
+        None => Box::new(std::io::BufReader::new(std::io::stdin())),
+    };
+    let stdout = std::io::stdout();
+    let mut ufo_ready = BTreeMap::new();
+    for line in reader.lines() {
+        let Ok(line) = line else { break };
+        if line.trim().is_empty() {
+            continue;
+        }
+        let req: Req = match serde_json::from_str(&line) {
+            Ok(r) => r,
+            Err(e) => {
+                eprintln!("bad request: {e}");
+                return 2;
+            }
+        };
+        if req.nax == 0 || req.nax > 2 || req.rules.iter().flat_map(|r| &r.conds).flatten().any(|c| c.ax == 0 || c.ax > req.nax) {
+            eprintln!("bad request {}: axis index out of range", req.id);
+            return 2;
+        }
+        let mut res = serde_json::Map::new();
+        res.insert("id".into(), Value::String(req.id.clone()));
+        if req.api {
+            res.insert("api".into(), call_api(&req));
+        }
+        if req.compile {
+            res.insert("font".into(), full_compile(&req, &mut ufo_ready));
+        }
+        let mut out = stdout.lock();
+        let _ = writeln!(out, "{}", Value::Object(res));
+        let _ = out.flush();
+    }
+    0
 }
